@@ -25,3 +25,99 @@ Example C05_nonvacuous :
 Proof. vm_compute. split; reflexivity. Qed.
 
 Print Assumptions C05_history_appends.
+
+(* ---------- T05: the SHAPE of the tape (Proofs/T05Shape.v, T05Blocks.v, T05Hb.v, T05Refuse.v; corners in T05Counter.v).
+   At rest the tape is a concatenation of well-formed archives (one or more members, then one two-block trailer) on the
+   512-byte grid, for ALL histories: any calls, any outcomes, any configuration, any environment oracle. *)
+From STFS Require Import Prefix T05Shape T05Blocks T05Hb T05Refuse.
+Open Scope N_scope.
+
+Theorem C05_tape_is_archives : forall c h, archives (tp (final c init_sys h)).
+Proof. exact T05_tape_is_archives. Qed.
+
+Theorem C05_step_appends_archives : forall c s k,
+  exists l, Forall nonempty l /\ tp (fst (step c s k)) = tp s ++ flat_map (fun ms => map TM ms ++ [TT]) l.
+Proof. exact T05_step_appends_archives. Qed.
+
+(* the decomposition into archives is unique and computed by [parse] *)
+Theorem C05_archives_decidable : forall t l, parse t [] = Some l <-> Forall nonempty l /\ t = archs l.
+Proof. exact parse_spec. Qed.
+
+(* block arithmetic: members (header group + data rounded up) plus two blocks per archive; bytes are blocks * 512 *)
+Theorem C05_blocks_of_archives : forall l,
+  tape_blocks (archs l) = fold_right (fun ms a => ms_blocks ms + a) 0 l + 2 * N.of_nat (length l).
+Proof. exact tape_blocks_archs_sum. Qed.
+
+Theorem C05_bytes_on_the_grid : forall t, tape_bytes t = tape_blocks t * 512 /\ tape_bytes t mod 512 = 0.
+Proof. intro t. split; [apply tape_bytes_blocks|apply tape_bytes_aligned]. Qed.
+
+(* the member table of a tape of archives, with the start block of every member *)
+Theorem C05_member_table : forall l, all_members (archs l) = archs_starts 0 l.
+Proof. exact all_members_archs. Qed.
+
+(* with non-empty header groups every member is found at the position the indexer computes for it, in every history *)
+Theorem C05_members_at_their_positions : forall c h, 0 < c_rs c -> forallb T05Hb.hb_ok h = true ->
+  let t := tp (final c init_sys h) in
+  NoDup (map fst (all_members t)) /\
+  forall st m, In (st, m) (all_members t) ->
+    member_at t (off_of (c_rs c) (fst (pos_of (c_rs c) st)) (snd (pos_of (c_rs c) st))) = Some m
+    /\ snd (pos_of (c_rs c) st) < c_rs c
+    /\ fetch_at c t (fst (pos_of (c_rs c) st)) (snd (pos_of (c_rs c) st)) = Some (match m_data m with Some d => d | None => [] end).
+Proof. exact T05_members_at_their_positions. Qed.
+
+(* a refused call appends nothing *)
+Theorem C05_refused_precondition_appends_nothing : forall c s k,
+  checks_first k = true -> refusal (snd (step c s k)) = true -> tp (fst (step c s k)) = tp s.
+Proof. exact T05_refused_precondition_appends_nothing. Qed.
+
+Theorem C05_failed_after_write_is_replay_failure : forall c s k, writes_once k = true ->
+  tp (fst (step c s k)) = tp s \/
+  exists s1 last ms hs ow ini, tp s1 = tp s /\ ms <> [] /\ step c s k = append_and_index c s1 last ms hs ow ini.
+Proof. exact T05_failed_after_write_is_replay_failure. Qed.
+
+Theorem C05_readonly_appends_nothing : forall c s k, c_readonly c = true -> guarded k = true ->
+  tp (fst (step c s k)) = tp s.
+Proof. exact T05_readonly_appends_nothing. Qed.
+
+Print Assumptions C05_tape_is_archives.
+Print Assumptions C05_step_appends_archives.
+Print Assumptions C05_members_at_their_positions.
+Print Assumptions C05_refused_precondition_appends_nothing.
+Print Assumptions C05_failed_after_write_is_replay_failure.
+
+(* in step with the tape ([Sync], the position part of the C01 invariant) before and after: a call that writes at most
+   once and does not return OOk has appended nothing -- any configuration, any names *)
+From STFS Require Import Norm C01Fs2 C01Rows T05Sync T05Strong.
+Theorem C05_failed_call_appends_nothing_sync : forall c s k, 0 < c_rs c -> writes_once_fs k = true ->
+  hbq_pos s -> Sync c s -> Sync c (fst (step c s k)) ->
+  snd (step c s k) <> OOk -> tp (fst (step c s k)) = tp s.
+Proof. exact T05_failed_call_appends_nothing_sync. Qed.
+
+(* after every filesystem-level history (hypotheses of C01_rows_rebuilt_are_live_rows_any_config), for the next call *)
+Theorem C05_failed_call_appends_nothing : forall c e r k e1, 0 < c_rs c -> c_readonly c = false ->
+  forallb C01Rows.hb_ok ((CInitialize [slash], e) :: r ++ [(k, e1)]) = true ->
+  safe true r = true ->
+  forallb (fun ke => rename_ok (fst ke)) r = true ->
+  forallb (fun ke => fs_call (fst ke)) (r ++ [(k, e1)]) = true ->
+  writes_once_fs k = true ->
+  let s := final c init_sys ((CInitialize [slash], e) :: r) in
+  snd (step c (with_env s e1) k) <> OOk -> tp (fst (step c (with_env s e1) k)) = tp s.
+Proof. exact T05_failed_call_appends_nothing. Qed.
+
+Print Assumptions C05_failed_call_appends_nothing.
+
+(* ... and for ALL the calls of the reference theorem C02 (MkdirAll, Rename and CreateFile included, which check
+   preconditions between writes), in the states [Good] describes (the live entries form a tree), any configuration:
+   a call that fails leaves the tape as it was -- one call, and along every history whose calls meet their preconditions *)
+From STFS Require Import T02Ns T02Calls T02Spec T05Strong2.
+Theorem C05_failed_call_appends_nothing_all_calls : forall (hr : bool) (c : cfg), 0 < c_rs c -> c_readonly c = false ->
+  forall s e k, Good hr c s -> hb_env e -> call_pre (abs s) k ->
+  snd (step c (with_env s e) k) <> OOk -> tp (fst (step c (with_env s e) k)) = tp s.
+Proof. exact T05_failed_call_appends_nothing_T02_any_config. Qed.
+
+Theorem C05_history_failed_calls_append_nothing : forall (hr : bool) (c : cfg), 0 < c_rs c -> c_readonly c = false ->
+  forall r s, Good hr c s -> ok_run c s r -> failed_keep c s r.
+Proof. exact T05_history_failed_calls_append_nothing_any_config. Qed.
+
+Print Assumptions C05_failed_call_appends_nothing_all_calls.
+Print Assumptions C05_history_failed_calls_append_nothing.
